@@ -347,6 +347,48 @@ def symmetrizeNeuron {α β μ} (S : List V3 → List V3) (n : Neuron α β μ) 
       | some hp => some { n with pts := pts', vect := some (tangentDirs pts'.xyz (S hp)), conns := conns' }
     else some { n with pts := pts', vect := none, alpha := none, conns := conns' }
 
+/-! ## `_guess_change`: order of magnitude of a change of scale -/
+
+/-- `round(math.log10(c))` for a positive rational `c`, without logarithms: the integer `m` with
+`10^(2m−1) ≤ c² < 10^(2m+1)`, i.e. `|log10 c − m| < ½` (ties cannot occur: `√10` is irrational).  Searched in
+`[−40, 40]`; `none` outside (or for `c ≤ 0`, where Python raises). -/
+def roundLog10 (c : Rat) : Option Int :=
+  if c ≤ 0 then none else
+  ((List.range 81).map fun (i : Nat) => (i : Int) - 40).find? fun m =>
+    decide (pow10 (2 * m - 1) ≤ c * c) && decide (c * c < pow10 (2 * m + 1))
+
+/-- `_guess_change` for a transform that multiplies EVERY distance by the same factor `c` (uniform scaling, rotations,
+reflections, translations and their compositions): all sampled ratios are `c`, their mean is `c`. -/
+def guessUniform (c : Rat) : Int := (roundLog10 c).getD 0
+
+/-! ## `xform_brain` and `mirror_brain(via=…)` -/
+
+/-- `xform_brain`, units part: walk the bridging path BACKWARDS (`zip(path[::-1], transforms[::-1])`), skip alias
+edges; the first non-alias edge decides: if the template it leads to is registered and has `_navis_units`, every
+neuron gets exactly those units.  Input in path order: `(edge is an AliasTransform, _navis_units of the template the
+edge leads to)`. -/
+def brainUnitsRev : List (Bool × Option Rat) → Option Rat
+  | [] => none
+  | (true, _) :: rest => brainUnitsRev rest
+  | (false, u) :: _ => u
+
+def brainUnits (edges : List (Bool × Option Rat)) : Option Rat := brainUnitsRev edges.reverse
+
+/-- **`xform_brain` on one neuron**: `xform` with the sequence along the path, then the units override. -/
+def xformBrainNeuron {α β μ} (f : RowFn) (guess : Int) (override : Option Rat) (n : Neuron α β μ) :
+    Option (Neuron α β μ) :=
+  (xformNeuron f guess n).map fun o =>
+    match override with
+    | some u => { o with units := some u }
+    | none => o
+
+/-- **`mirror_brain(x, template, via=V)`** with `via ≠ template`: `xform_brain(template → V)`, `mirror_brain` in `V`,
+`xform_brain(V → template)`; `f1`, `f2` the two bridging sequences, `g` the flip (+ warp) in `V`, `m1`, `m2` the
+magnitudes the two `xform` calls detect (`o1`, `o2` their units overrides). -/
+def mirrorViaNeuron {α β μ} (f1 : RowFn) (m1 : Int) (o1 : Option Rat) (g : RowFn) (f2 : RowFn) (m2 : Int)
+    (o2 : Option Rat) (n : Neuron α β μ) : Option (Neuron α β μ) :=
+  ((xformBrainNeuron f1 m1 o1 n).bind (mirrorNeuron g)).bind (xformBrainNeuron f2 m2 o2)
+
 /-! ## orientation of mesh faces -/
 
 /-- Un-normalised face normal `(B − A) × (C − A)` for the vertex positions of a face. -/
@@ -411,5 +453,48 @@ def checkXform {α β μ} [DecidableEq α] [DecidableEq β] [DecidableEq μ]
    | none, none => true
    | some d, some v => if s.kind == Kind.dots && usesHelpers s.k then tangentsOK eps d v else decide (d = v)
    | _, _ => false)
+
+/-- an observed neuron `out` against a modelled one `m`: everything exact, except floating-point scaled columns
+(relative `eps`) and — on the helper-point path — tangents, which must be the normalised model directions -/
+def sameNeuron {α β μ} [DecidableEq α] [DecidableEq β] [DecidableEq μ]
+    (eps : Rat) (helper : Bool) (m out : Neuron α β μ) : Bool :=
+  decide (out.kind = m.kind) && decide (out.pts = m.pts) && decide (out.conns = m.conns) &&
+  decide (out.faces = m.faces) && decide (out.k = m.k) && decide (out.info = m.info) &&
+  decide (out.alpha.isSome = m.alpha.isSome) &&
+  closeOptCol eps out.radius m.radius && closeOpt eps out.units m.units &&
+  closeOpt eps out.somaRadius m.somaRadius &&
+  (match m.vect, out.vect with
+   | none, none => true
+   | some d, some v => if helper then tangentsOK eps d v else decide (d = v)
+   | _, _ => false)
+
+/-- Property checker for one observed result of `mirror_brain` (row function `g` = flip [+ warp]). -/
+def checkMirror {α β μ} [DecidableEq α] [DecidableEq β] [DecidableEq μ]
+    (eps : Rat) (g : RowFn) (n out : Neuron α β μ) : Bool :=
+  match mirrorNeuron g n with
+  | some m => sameNeuron eps (n.kind == Kind.dots && usesHelpers n.k) m out
+  | none => false
+
+/-- Property checker for one observed result of `symmetrize_brain` (array-level map `S`). -/
+def checkSymm {α β μ} [DecidableEq α] [DecidableEq β] [DecidableEq μ]
+    (eps : Rat) (S : List V3 → List V3) (n out : Neuron α β μ) : Bool :=
+  match symmetrizeNeuron S n with
+  | some m => sameNeuron eps (n.kind == Kind.dots && usesHelpers n.k) m out
+  | none => false
+
+/-- Property checker for DataFrames / arrays / mesh vertices: coordinates moved by `f`, every other column kept. -/
+def checkTable {α} [DecidableEq α] (f : RowFn) (t out : Table α) : Bool :=
+  decide (out.xyz = t.xyz.map f) && decide (out.cols = t.cols)
+
+/-- … and for `trimesh.Trimesh` / `navis.Volume` under `mirror_brain`: vertices moved, every face re-wound. -/
+def checkMesh (g : RowFn) (verts : List V3) (faces : List Face) (verts' : List V3) (faces' : List Face) : Bool :=
+  decide (verts' = verts.map g) && decide (faces' = faces.map rewind)
+
+/-- checker for `xform_brain`: everything as `checkXform`, units = the override when there is one -/
+def checkXformBrain {α β μ} [DecidableEq α] [DecidableEq β] [DecidableEq μ]
+    (eps : Rat) (f : RowFn) (guess : Int) (override : Option Rat) (n out : Neuron α β μ) : Bool :=
+  match override with
+  | none => checkXform eps f guess n out
+  | some u => checkXform eps f guess n { out with units := (specXform f guess n).units } && closeOpt eps out.units (some u)
 
 end Navis.Xform
